@@ -246,9 +246,13 @@ def t2(ctx, res):
                   detail={"not passed": sorted(result[True]), "passed": sorted(result[False])},
                   reason="class keyword falls back to the inherited attribute of the SAME name, and is stored on the class")
     # properties store exists
-    res.check(any(isinstance(st, (ast.Assign, ast.AnnAssign)) and any(norm(t) == "cls.properties" for t in
-                  (st.targets if isinstance(st, ast.Assign) else [st.target])) for st in walk_own(vnew)),
-              new, "cls.properties = {...}", reason="properties are stored on the class")
+    def stores_properties(pth):
+        return any(isinstance(st, (ast.Assign, ast.AnnAssign)) and any(norm(t) == "cls.properties" for t in
+                   (st.targets if isinstance(st, ast.Assign) else [st.target])) for st in pth.stmts if isinstance(st, ast.AST))
+    ret_paths = [pth for pth in paths_new if pth.exit == "return"]
+    res.check(bool(ret_paths) and all(stores_properties(pth) for pth in ret_paths),
+              new, "cls.properties = {...}", reason="properties are stored on the class itself on every path (a class that only "
+                                                    "resolves them through the MRO shares its parent's property objects)")
     # no constructor rebinds a keyword parameter before storing it
     for f in [own_init(c) for c in classes] + [new]:
         names = {p.name for p in f.params[1:]}
